@@ -24,12 +24,14 @@ EXPLANATION = (
     "exit_socket.sendto / enable / tunnel_data / exit_data / join_circuit; every path to exit_data has established "
     "destination != ('0.0.0.0', 0) and every path to transport.sendto the same for the address actually emitted (after "
     "domain-name resolution re-entered sendto); every path to enable() has established the previous-hop IP comparison (or "
-    "an already enabled socket), every path to exit_socket.sendto an enabled socket; the exit socket's hop is a Peer built "
+    "an already enabled socket), made on the address on_data received the cell from (exit_data's sender argument is on_data's own source-address parameter), every path to exit_socket.sendto an enabled socket; the exit socket's hop is a Peer built "
     "in join_circuit from the CREATE cell's source address; the DataChecker classifiers are decision tables over their base "
     "quantities (length, bytes, big-endian fields at constant offsets) evaluated on every region their comparisons can "
     "distinguish (bytes that enter arithmetic: all 256 values), with every fixed-width read guarded by the length it needs."
 )
 
+_RULE_ATTRS = ("enabled",)
+_CLASSIFIER_NAMES = ("could_be_bt", "could_be_ipv8", "could_be_utp", "could_be_udp_tracker", "could_be_dht")
 ES = "ipv8/messaging/anonymization/exit_socket.py"
 TC = "ipv8/messaging/anonymization/community.py"
 FLAGS = "self.overlay.settings.peer_flags"
@@ -155,7 +157,7 @@ _SIM_PURE = _PURE_CALLS | {"isinstance", "str", "tuple", "int", "repr", "min", "
                           "unpack", "struct.unpack", "Peer", "Hop"}
 _LIBS = ("operator", "functools", "itertools")
 _TABLE_ATTRS = ("self.exit_sockets", "self.circuits", "self.relay_from_to")
-_FOLLOW_DEPTH = 4
+_FOLLOW_DEPTH = 6
 _NEST = (ast.Lambda, ast.ListComp, ast.SetComp, ast.DictComp, ast.GeneratorExp, ast.FunctionDef, ast.AsyncFunctionDef, ast.ClassDef)
 
 
@@ -565,6 +567,18 @@ class _Canon2(_Canon):
         if lib is not None:
             return lib
         c = chain(r.func) or ""
+        if c in ("calcsize", "struct.calcsize") and len(r.args) == 1 and not r.keywords and isinstance(const_value(r.args[0]), (str, bytes)):
+            try:
+                import struct
+                return ast.Constant(value=struct.calcsize(const_value(r.args[0])))      # a derived constant is the number it evaluates to
+            except Exception:  # noqa: BLE001
+                return r
+        if c == "len" and len(r.args) == 1 and not r.keywords:
+            v = const_value(r.args[0])
+            if isinstance(v, (str, bytes, tuple)):
+                return ast.Constant(value=len(v))
+            if isinstance(r.args[0], (ast.Tuple, ast.List)) and not any(isinstance(x, ast.Starred) for x in r.args[0].elts):
+                return ast.Constant(value=len(r.args[0].elts))
         if c in ("bytes", "bytearray", "memoryview") and len(r.args) == 1 and not r.keywords and (
                 (isinstance(r.args[0], ast.Subscript) and isinstance(r.args[0].slice, ast.Slice)) or
                 (isinstance(r.args[0], ast.Name) and r.args[0].id == "data" and c == "memoryview") or
@@ -659,6 +673,13 @@ class _Canon2(_Canon):
 
     def visit_BinOp(self, n: ast.BinOp) -> ast.AST:
         self.generic_visit(n)
+        if _is_int_const(n.left) and _is_int_const(n.right) and type(n.op) in _BINOPS:
+            try:
+                v = _BINOPS[type(n.op)](n.left.value, n.right.value)
+                if isinstance(v, int) and abs(v) < 1 << 64:
+                    return ast.Constant(value=v)
+            except Exception:  # noqa: BLE001
+                pass
         if isinstance(n.op, (ast.FloorDiv, ast.Mod)) and _is_int_const(n.right) and n.right.value >= 2 \
                 and n.right.value & (n.right.value - 1) == 0:
             if isinstance(n.op, ast.FloorDiv):      # x // 2**k == x >> k and x % 2**k == x & (2**k - 1) for every int x
@@ -876,6 +897,110 @@ def _as_cond(x: ast.AST, sym: "_Sym | None" = None) -> ast.AST:
     return x
 
 
+def _is_new_file(repo, rel: str) -> bool:
+    """the module exists only in the variant under analysis (a helper moved into a new module), not in the reviewed tree"""
+    import os
+    return rel in repo.overrides and repo.overrides[rel] is not None and not os.path.exists(os.path.join(repo.root, rel))
+
+
+def _is_new_function(repo, table: dict, g: FuncInfo) -> bool:
+    """g is a function the reviewed tree does not have: a new function of a reviewed tunnel module, or any function of a new module"""
+    rel = g.module.relpath
+    if not (_is_new_file(repo, rel) or (rel.startswith("ipv8/messaging/anonymization/") and rel in table and g.qualname not in table[rel])):
+        return False
+    # MOVED is not new: a method that a reviewed class now inherits from a base class (mixin) it did not have, or a function / class
+    # that kept its qualified name and went to another module of the package, is the reviewed function at a new address
+    if g.cls is not None and enclosing_function(g.node) is None:
+        for c in g.cls.all_subclasses():
+            if f"{c.name}.{g.name}" in table.get(c.module.relpath, ()) and g.name not in c.methods:
+                return False
+    pkg = rel.rsplit("/", 1)[0] + "/"
+    for other, quals in table.items():
+        if other != rel and other.startswith(pkg) and g.qualname in quals:
+            m = repo.by_relpath.get(other)
+            if m is None or not any(f.qualname == g.qualname for f in m.all_functions):
+                return False
+    return True
+
+
+def _resolve_ref(repo, m, cls, e: ast.AST, depth: int = 0) -> FuncInfo | None:
+    """the function a reference denotes: a name / `module.name` / `Class.name` that is a def, or that is bound (once, at module or
+    class level) to another such reference, possibly wrapped in staticmethod(..)"""
+    if depth > 6 or e is None:
+        return None
+    e = strip_cast(e)
+    if isinstance(e, ast.Call) and chain(e.func) == "staticmethod" and len(e.args) == 1 and not e.keywords:
+        return _resolve_ref(repo, m, cls, e.args[0], depth + 1)
+    if isinstance(e, ast.Name):
+        if cls is not None and e.id in cls.methods and e.id not in m.functions and e.id not in m.constants and e.id not in m.imports:
+            return cls.methods[e.id]
+        r = repo.resolve_name(m, e.id)
+        if isinstance(r, FuncInfo):
+            return r
+        if isinstance(r, tuple) and r[0] == "const":
+            return _resolve_ref(repo, r[1], None, r[2], depth + 1)
+        return None
+    if isinstance(e, ast.Attribute):
+        base = e.value
+        owner = None
+        if isinstance(base, ast.Name):
+            if base.id in ("self", "cls") and cls is not None:
+                owner = cls
+            else:
+                r = repo.resolve_name(m, base.id)
+                if isinstance(r, tuple) and r[0] == "module" and r[1] is not None:
+                    return _resolve_ref(repo, r[1], None, ast.Name(id=e.attr, ctx=ast.Load()), depth + 1)
+                if r is None and base.id in m.imports and m.imports[base.id][1] is None:
+                    sub = repo.modules.get(m.imports[base.id][0])
+                    if sub is not None:
+                        return _resolve_ref(repo, sub, None, ast.Name(id=e.attr, ctx=ast.Load()), depth + 1)
+                if r is not None and not isinstance(r, (tuple, FuncInfo)) and hasattr(r, "mro"):
+                    owner = r
+        if owner is not None:
+            for c in owner.mro():
+                if e.attr in c.methods:
+                    return c.methods[e.attr]
+                if e.attr in c.attrs:
+                    return _resolve_ref(repo, c.module, c, c.attrs[e.attr], depth + 1)
+    return None
+
+
+def _data_checker(repo):
+    """the DataChecker class: in the exit-socket module, or (moved as a whole) the only class of that name in the tunnel package"""
+    c = repo.try_cls("DataChecker", ES)
+    if c is None:
+        cands = [k for k in repo.classes.get("DataChecker", []) if k.module.relpath.startswith("ipv8/messaging/anonymization/")]
+        es = repo.module(ES)
+        r = repo.resolve_name(es, "DataChecker")
+        if len(cands) != 1 or (r is not None and r is not cands[0]):
+            raise AnalysisError("anchor-lost: class DataChecker")
+        c = cands[0]
+    return c
+
+
+def _classifier_fn(repo, name: str) -> FuncInfo | None:
+    """the function `DataChecker.<name>` denotes: the static method itself, or the module-level function a class-level alias
+    (`could_be_utp = staticmethod(_shapes.could_be_utp)`) names"""
+    dc = _data_checker(repo)
+    fi = dc.methods.get(name)
+    if fi is not None:
+        return fi
+    if name not in dc.attrs:
+        return None
+    # the alias must be the only binding of the name (nothing rebinds DataChecker.<name> elsewhere)
+    if sum(1 for x in dc.node.body for t in ast.walk(x) if isinstance(t, ast.Name) and isinstance(t.ctx, ast.Store) and t.id == name
+           and not isinstance(x, (ast.FunctionDef, ast.AsyncFunctionDef, ast.ClassDef))) != 1:
+        return None
+    for m in repo.modules.values():
+        for x in ast.walk(m.tree):
+            if isinstance(x, ast.Attribute) and x.attr == name and isinstance(x.ctx, (ast.Store, ast.Del)):
+                return None
+    fi = _resolve_ref(repo, dc.module, dc, dc.attrs[name])
+    if fi is None or fi.cls is not None or enclosing_function(fi.node) is not None or fi.is_async:
+        return None
+    return fi
+
+
 class _Sym:
     """Walks every feasible path of `fi` (and of the new helpers it calls); on_site(sym, frame, call, tag, state) ->
     {question: bool} is asked at every evaluation of a call for which site_of(call) gives a tag."""
@@ -901,32 +1026,214 @@ class _Sym:
                                 and body[0].value is not None and norm(body[0].value) == "self.peer.address")
         from ..localnames import load_table
         table = load_table()
+        self._table = table
         self.new_funcs: dict[str, list[FuncInfo]] = {}
         self.known_names: set[str] = set()
         for g in self.repo.all_functions():
-            rel = g.module.relpath
-            if rel.startswith("ipv8/messaging/anonymization/") and rel in table and g.qualname not in table[rel]:
+            if _is_new_function(self.repo, table, g):
                 self.new_funcs.setdefault(g.name, []).append(g)
             else:
                 self.known_names.add(g.name)
+        self._bodies: dict[str, FuncInfo] = {}    # marker name -> the decorated function a new decorator's wrapper calls
 
     # ---------------------------------------------------------------- running
-    def run(self) -> "_Sym":
-        fr = _Frame(self.fi, self.ctx.cfg(self.fi))
+    def _start(self, first_as: str | None = None) -> tuple[_Frame, _St]:
+        """the frame and state a walk of self.fi begins with: its parameters stand for themselves; when the function is decorated
+        with a NEW decorator the walk begins in the wrapper the decorator returns (called with the function's own parameters), and
+        the wrapper's call of the decorated function is followed into the body"""
         st = _St()
         for p in self.fi.params():
             st.env[p] = ast.Name(id=p, ctx=ast.Load())
+        if first_as is not None and self.fi.params():
+            st.env[self.fi.params()[0]] = ast.Name(id=first_as, ctx=ast.Load())      # (first_as: the name the first parameter is known by)
+        w = self._wrapper(self.fi)
+        if w is None:
+            return _Frame(self.fi, self.ctx.cfg(self.fi)), st
+        a = self.fi.node.args
+        if a.vararg or a.kwarg or a.kwonlyargs:
+            raise AnalysisError(f"undecided: {self.fi.qualname} is decorated with new decorator {w[3].qualname} and takes */** / keyword-only parameters")
+        wa = w[0].node.args
+        own = [p.arg for p in a.posonlyargs + a.args]
+        if not wa.vararg and len(wa.posonlyargs + wa.args) != len(own):
+            # the decorator changes the signature: the public parameters are the wrapper's own
+            own = [p.arg for p in wa.posonlyargs + wa.args]
+        if first_as is not None and own:
+            own = [first_as, *own[1:]]
+        env = self._wrapper_env(self.fi, w, [ast.Name(id=p, ctx=ast.Load()) for p in own])
+        if env is None:
+            raise AnalysisError(f"undecided: cannot bind the parameters of {self.fi.qualname} to the wrapper of new decorator {w[3].qualname}")
+        st.env = env
+        self.helpers.add(w[0])
+        return _Frame(w[0], self.ctx.cfg(w[0])), st
+
+    def run(self) -> "_Sym":
+        fr, st = self._start()
         self.root = fr
         self.steps = 0
         self._paths(fr, st)
         return self
 
+    # ---------------------------------------------------------------- new decorators
+    # `@d` / `@d(args)` with d a function the reviewed tree does not have, of the shape
+    #       def d(func):                      def d(args):
+    #           @wraps(func)                      def deco(func):
+    #           def wrapper(...): ...                 def wrapper(...): ...
+    #           return wrapper                        return wrapper
+    #                                             return deco
+    # makes the decorated name denote `wrapper` with `func` bound to the decorated body: wrapper + body are walked as one function.
+    def _wrapper(self, h: FuncInfo):
+        """(wrapper FuncInfo, name of the parameter that holds the decorated function, closure environment, decorator FuncInfo) or None"""
+        cache = self.__dict__.setdefault("_wrappers", {})
+        if id(h.node) in cache:
+            return cache[id(h.node)]
+        cache[id(h.node)] = None
+        found = []
+        for d in h.node.decorator_list:
+            ref = d.func if isinstance(d, ast.Call) else d
+            if not isinstance(ref, (ast.Name, ast.Attribute)) or chain(ref) is None:
+                continue
+            D = _resolve_ref(self.repo, h.module, h.cls if not isinstance(ref, ast.Name) else None, ref)
+            if D is None:
+                name = ref.attr if isinstance(ref, ast.Attribute) else ref.id
+                cands = [g for g in self.new_funcs.get(name, []) if enclosing_function(g.node) is None]
+                if name in self.known_names or len(cands) != 1:
+                    continue
+                D = cands[0]
+            if not _is_new_function(self.repo, self._table, D):
+                continue
+            found.append((d, D))
+        if not found:
+            return None
+        if len(found) > 1:
+            raise AnalysisError(f"undecided: {h.qualname} carries several new decorators ({', '.join(D.qualname for _, D in found)})")
+        d, D = found[0]
+
+        def body_of(fn) -> list:
+            return [x for x in fn.body if not (isinstance(x, ast.Expr) and isinstance(x.value, ast.Constant))]
+
+        def shape(fn, closure: dict):
+            """fn(func) -> (wrapper def, func parameter) when fn's body is `def wrapper ..; return wrapper`"""
+            a = fn.args
+            ps = a.posonlyargs + a.args
+            b = body_of(fn)
+            if len(ps) != 1 or a.vararg or a.kwarg or a.kwonlyargs or len(b) != 2 or not isinstance(b[0], (ast.FunctionDef, ast.AsyncFunctionDef)) \
+                    or not (isinstance(b[1], ast.Return) and isinstance(b[1].value, ast.Name) and b[1].value.id == b[0].name):
+                return None
+            for wd in b[0].decorator_list:
+                if not (isinstance(wd, ast.Call) and (chain(wd.func) or "").split(".")[-1] == "wraps" and len(wd.args) == 1
+                        and isinstance(wd.args[0], ast.Name) and wd.args[0].id == ps[0].arg):
+                    return None
+            if any(isinstance(t, ast.Name) and isinstance(t.ctx, (ast.Store, ast.Del)) and t.id == ps[0].arg for t in ast.walk(fn)) \
+                    or any(isinstance(t, (ast.Nonlocal, ast.Global)) for t in ast.walk(fn)):
+                return None
+            return b[0], ps[0].arg
+        if D.is_async or D.node.decorator_list and D.decorator_names() != ["staticmethod"]:
+            raise AnalysisError(f"undecided: new decorator {D.qualname} is itself decorated / a coroutine")
+        closure: dict[str, ast.AST] = {}
+        if isinstance(d, ast.Call):
+            b = body_of(D.node)
+            if len(b) != 2 or not isinstance(b[0], ast.FunctionDef) or not (isinstance(b[1], ast.Return) and isinstance(b[1].value, ast.Name)
+                                                                             and b[1].value.id == b[0].name) or b[0].decorator_list:
+                raise AnalysisError(f"undecided: new decorator factory {D.qualname} is not `def deco(func): ..; return deco`")
+            hfr = _Frame(h, None)
+            if any(isinstance(x, ast.Starred) for x in d.args) or any(k.arg is None for k in d.keywords) or D.node.args.vararg or D.node.args.kwarg:
+                raise AnalysisError(f"undecided: cannot bind the arguments of decorator `{norm(d)[:80]}`")
+            pos = [q.arg for q in D.node.args.posonlyargs + D.node.args.args]
+            if len(d.args) > len(pos):
+                raise AnalysisError(f"undecided: cannot bind the arguments of decorator `{norm(d)[:80]}`")
+            closure = {q: self.C(hfr, x, _St()) for q, x in zip(pos, d.args)}
+            closure.update({k.arg: self.C(hfr, k.value, _St()) for k in d.keywords})
+            dfr = _Frame(D, None)
+            for q, dv in zip(pos[len(pos) - len(D.node.args.defaults):], D.node.args.defaults):
+                closure.setdefault(q, self.C(dfr, dv, _St()))
+            for q, dv in zip(D.node.args.kwonlyargs, D.node.args.kw_defaults):
+                if dv is not None:
+                    closure.setdefault(q.arg, self.C(dfr, dv, _St()))
+            if set(closure) != set(pos) | {q.arg for q in D.node.args.kwonlyargs} or not all(self._pure(v) for v in closure.values()):
+                raise AnalysisError(f"undecided: cannot bind the arguments of decorator `{norm(d)[:80]}`")
+            sh = shape(b[0], closure)
+        else:
+            sh = shape(D.node, closure)
+        if sh is None:
+            raise AnalysisError(f"undecided: new decorator {D.qualname} (on {h.qualname}) is not of the shape `def wrapper(..): ..; return wrapper`")
+        wnode, fparam = sh
+        W = getattr(wnode, "_info", None)
+        if W is None:
+            raise AnalysisError(f"undecided: wrapper of new decorator {D.qualname} is not in the model")
+        if isinstance(W.node, ast.AsyncFunctionDef) != h.is_async:
+            raise AnalysisError(f"undecided: new decorator {D.qualname} turns {h.qualname} from/into a coroutine")
+        marker = f"%body{len(self._bodies)}"
+        self._bodies[marker] = h
+        closure = dict(closure)
+        closure[fparam] = ast.Name(id=marker, ctx=ast.Load())
+        cache[id(h.node)] = (W, fparam, closure, D)
+        return cache[id(h.node)]
+
+    def _wrapper_env(self, h: FuncInfo, w: tuple, values: list) -> dict | None:
+        """environment of the wrapper when the decorated name is called with `values` for h's positional parameters"""
+        W, fparam, closure, D = w
+        a = W.node.args
+        pos = [q.arg for q in a.posonlyargs + a.args]
+        env = dict(closure)
+        if len(values) > len(pos) and not a.vararg:
+            return None
+        for q, v in zip(pos, values):
+            env[q] = v
+        wfr = _Frame(W, None)
+        for q, dv in zip(pos[len(pos) - len(a.defaults):], a.defaults):
+            if q not in env or pos.index(q) >= len(values):
+                env[q] = self.C(wfr, dv, _St())
+        if any(q not in env or (pos.index(q) >= len(values) and q not in pos[len(pos) - len(a.defaults):]) for q in pos):
+            return None
+        if a.vararg:
+            env[a.vararg.arg] = ast.Tuple(elts=list(values[len(pos):]), ctx=ast.Load())
+        if a.kwarg:
+            env[a.kwarg.arg] = ast.Dict(keys=[], values=[])
+        for q, dv in zip(a.kwonlyargs, a.kw_defaults):
+            if dv is None:
+                return None
+            env[q.arg] = self.C(wfr, dv, _St())
+        return env
+
+    def _wrapper_call_env(self, fr: _Frame, h: FuncInfo, w: tuple, call: ast.Call, st: _St) -> dict | None:
+        """environment of the wrapper for a call of the decorated helper h: the call's arguments (the receiver first, for a method)
+        are bound to the WRAPPER's signature - the decorator may add or drop parameters in front of the body"""
+        args = []
+        for x in call.args:
+            if isinstance(x, ast.Starred):
+                v = self.C(fr, x.value, st)
+                if not isinstance(v, (ast.Tuple, ast.List)) or any(isinstance(e, ast.Starred) for e in v.elts):
+                    return None
+                args.extend(v.elts)
+            else:
+                args.append(self.C(fr, x, st))
+        if call.keywords:
+            return None
+        nested = enclosing_function(h.node) is not None
+        if h.cls is not None and not nested and "staticmethod" not in h.decorator_names():
+            f = strip_cast(call.func)
+            if isinstance(f, ast.Name) and isinstance(st.env.get(f.id), ast.Attribute):
+                recv = clone(st.env[f.id].value)
+            elif isinstance(f, ast.Attribute):
+                recv = self.C(fr, f.value, st)
+            else:
+                return None
+            if not (isinstance(recv, ast.Name) and recv.id == h.cls.name):
+                args = [recv, *args]
+        return self._wrapper_env(h, w, args)
+
+    def _body_marker(self, call: ast.Call, st: _St) -> FuncInfo | None:
+        """the decorated function, when `call` is a wrapper's call of the function it wraps"""
+        f = strip_cast(call.func)
+        if isinstance(f, ast.Name):
+            v = st.env.get(f.id)
+            if isinstance(v, ast.Name) and v.id in self._bodies:
+                return self._bodies[v.id]
+        return None
+
     def decide(self, seed: dict[tuple, bool]) -> list[tuple[bool | None, ast.AST, _St]]:
         """truth values the walked function can return when the atoms in `seed` (fact key -> outcome) are as given"""
-        fr = _Frame(self.fi, self.ctx.cfg(self.fi))
-        st = _St()
-        for p in self.fi.params():
-            st.env[p] = ast.Name(id=p, ctx=ast.Load())
+        fr, st = self._start()
         st.facts = dict(seed)
         self.root = fr
         self.steps = 0
@@ -1178,6 +1485,9 @@ class _Sym:
                 r = self._expr_helper(fr, n, st, depth)
                 if r is not None:
                     return r
+                r = self._gen_items(fr, n, st, depth)
+                if r is not None:
+                    return r
             if isinstance(n, ast.Call):
                 self._name_classifier(fr, new)
                 if chain(new.func) == "functools.reduce" and 2 <= len(new.args) <= 3 and not new.keywords \
@@ -1204,6 +1514,8 @@ class _Sym:
     def _property_value(self, fr: _Frame, n: ast.Attribute, st: _St, depth: int) -> ast.AST | None:
         """`obj.name` where name is a NEW read-only property whose body is one `return <pure expression>`: that expression about obj"""
         cands = [g for g in self.new_funcs.get(n.attr, []) if g.cls is not None and enclosing_function(g.node) is None]
+        if n.attr in _RULE_ATTRS:
+            return None                     # the rules speak about this attribute by name (who may write it is checked on what backs it)
         if len(cands) != 1 or n.attr in self.known_names or n.attr in self._stored_attrs() or "*" in self._stored_attrs():
             return None
         h = cands[0]
@@ -1240,6 +1552,27 @@ class _Sym:
             tg = {t.qualname for t in self.repo.resolve_call(fr.fi, call)}
             if len(tg) == 1 and next(iter(tg)).startswith("DataChecker.could_be_"):
                 call.func = ast.Attribute(value=ast.Name(id="DataChecker", ctx=ast.Load()), attr=next(iter(tg)).split(".")[1], ctx=ast.Load())
+                return
+        if isinstance(call.func, (ast.Name, ast.Attribute)) and chain(call.func) is not None:
+            # the classifier bodies may live elsewhere (a module-level function that DataChecker.<name> is an alias of): a call that
+            # resolves to that very function is the classifier
+            last = chain(call.func).split(".")[-1]
+            moved = self.__dict__.get("_moved_classifiers")
+            if moved is None:
+                moved = {}
+                for k in _CLASSIFIER_NAMES:
+                    try:
+                        g = _classifier_fn(self.repo, k)
+                    except AnalysisError:
+                        g = None
+                    if g is not None and g.cls is None:
+                        moved[k] = g
+                self._moved_classifiers = moved
+            if moved and (last in {g.name for g in moved.values()} or last in moved) and not chain(call.func).startswith("DataChecker."):
+                g = _resolve_ref(self.repo, fr.fi.module, fr.fi.cls, call.func)
+                hit = [k for k, v in moved.items() if v is g]
+                if g is not None and len(hit) == 1:
+                    call.func = ast.Attribute(value=ast.Name(id="DataChecker", ctx=ast.Load()), attr=hit[0], ctx=ast.Load())
 
     def _lib_ref(self, m, n: ast.AST, st: _St | None = None) -> str | None:
         """'operator.contains' / 'functools.partial' / 'itertools.chain' when the name / attribute path n denotes that library function
@@ -1369,9 +1702,153 @@ class _Sym:
                 return None
             return self._table_value(m, cls, e, depth + 1)
         v = self.repo.resolve_const(m, e, cls)
+        if v is NOCONST:
+            # a DERIVED constant (struct.calcsize(..), Struct(..).size, len(<constant>), <hash>().digest_size, range / frozenset of
+            # constants, arithmetic over those) is the value it evaluates to
+            v = self._fold_value(m, cls, e, 0)
+            if isinstance(v, tuple) and not isinstance(e, (ast.Tuple, ast.List, ast.Set)):
+                return _lit(v)
         if v is NOCONST or isinstance(v, (tuple, float)) or not (v is None or isinstance(v, (bool, int, str, bytes))):
             return None
         return _lit(v)
+
+    _DIGEST = {"md5": 16, "sha1": 20, "sha224": 28, "sha256": 32, "sha384": 48, "sha512": 64, "sha3_224": 28, "sha3_256": 32, "sha3_384": 48,
+               "sha3_512": 64, "blake2b": 64, "blake2s": 32}
+
+    def _fold_value(self, m, cls, e: ast.AST, depth: int):
+        """the Python value of a module- / class-level constant expression built from literals, other once-bound constants and pure
+        builtins (len, range, tuple / frozenset / set / list / sorted, min / max / sum / abs / ord / int / bool), struct.calcsize,
+        Struct(fmt).size and hashlib digest sizes; NOCONST when it is anything else"""
+        if depth > 8:
+            return NOCONST
+        e = strip_cast(e)
+        v = const_value(e)
+        if v is not NOCONST:
+            return v
+
+        def builtin(name: str) -> bool:
+            return name not in m.functions and name not in m.constants and name not in m.imports and name not in m.classes
+
+        def from_lib(ref: ast.AST, lib: str, what: str) -> bool:
+            if isinstance(ref, ast.Name):
+                return m.imports.get(ref.id) == (lib, what)
+            return isinstance(ref, ast.Attribute) and ref.attr == what and isinstance(ref.value, ast.Name) \
+                and m.imports.get(ref.value.id) == (lib, None)
+        if isinstance(e, ast.Name):
+            if cls is not None and e.id in cls.attrs and e.id not in m.constants:
+                return self._fold_value(m, cls, cls.attrs[e.id], depth + 1)
+            r = self.repo.resolve_name(m, e.id)
+            if isinstance(r, tuple) and r[0] == "const":
+                own = next((k for k, x in r[1].constants.items() if x is r[2]), None)
+                if own is not None and self._bound_once(r[1], own):
+                    return self._fold_value(r[1], None, r[2], depth + 1)
+            return NOCONST
+        if isinstance(e, (ast.Tuple, ast.List, ast.Set)):
+            vals = [self._fold_value(m, cls, x, depth + 1) for x in e.elts]
+            return NOCONST if any(x is NOCONST for x in vals) or any(isinstance(x, ast.Starred) for x in e.elts) else tuple(vals)
+        if isinstance(e, ast.UnaryOp) and isinstance(e.op, (ast.USub, ast.Invert, ast.UAdd)):
+            x = self._fold_value(m, cls, e.operand, depth + 1)
+            if isinstance(x, int) and not isinstance(x, bool):
+                return -x if isinstance(e.op, ast.USub) else ~x if isinstance(e.op, ast.Invert) else x
+            return NOCONST
+        if isinstance(e, ast.BinOp) and (type(e.op) in _BINOPS or isinstance(e.op, ast.Pow)):
+            a, b = self._fold_value(m, cls, e.left, depth + 1), self._fold_value(m, cls, e.right, depth + 1)
+            if a is NOCONST or b is NOCONST:
+                return NOCONST
+            try:
+                if isinstance(e.op, ast.Pow):
+                    return a ** b if isinstance(a, int) and isinstance(b, int) and 0 <= b <= 64 else NOCONST
+                if isinstance(e.op, (ast.Add, ast.Mult)) and type(a) is type(b) and isinstance(a, (bytes, str, tuple)) and isinstance(e.op, ast.Add):
+                    return a + b
+                if all(isinstance(x, int) for x in (a, b)):
+                    return _BINOPS[type(e.op)](a, b)
+            except Exception:  # noqa: BLE001
+                return NOCONST
+            return NOCONST
+        if isinstance(e, ast.Subscript) and not isinstance(e.slice, ast.Slice):
+            a, i = self._fold_value(m, cls, e.value, depth + 1), self._fold_value(m, cls, e.slice, depth + 1)
+            if isinstance(a, (tuple, bytes, str)) and isinstance(i, int) and not isinstance(i, bool) and -len(a) <= i < len(a):
+                return a[i]
+            return NOCONST
+        if isinstance(e, ast.Attribute):
+            if e.attr == "size" and _struct_format(e.value) is not None and isinstance(e.value, ast.Call) and (
+                    from_lib(e.value.func, "struct", "Struct")):
+                try:
+                    import struct
+                    return struct.calcsize(_struct_format(e.value))
+                except Exception:  # noqa: BLE001
+                    return NOCONST
+            if e.attr == "size" and isinstance(e.value, (ast.Name, ast.Attribute)):
+                g = self._global_value(m, e.value.id) if isinstance(e.value, ast.Name) else self._class_attr_value(m, cls, e.value)
+                if g is not None and _struct_format(g) is not None:
+                    try:
+                        import struct
+                        return struct.calcsize(_struct_format(g))
+                    except Exception:  # noqa: BLE001
+                        return NOCONST
+            if e.attr == "digest_size" and isinstance(e.value, ast.Call) and not e.value.args and not e.value.keywords:
+                f = e.value.func
+                for k, size in self._DIGEST.items():
+                    if from_lib(f, "hashlib", k):
+                        return size
+                return NOCONST
+            r = self.repo.resolve_const(m, e, cls)
+            if r is not NOCONST:
+                return r
+            if isinstance(e.value, ast.Name):
+                ci = cls if e.value.id in ("self", "cls") else self.repo.resolve_name(m, e.value.id)
+                if ci is not None and not isinstance(ci, (tuple, FuncInfo)) and hasattr(ci, "mro"):
+                    owner = next((c for c in ci.mro() if e.attr in c.attrs), None)
+                    if owner is not None and e.attr not in self._stored_attrs():
+                        return self._fold_value(owner.module, owner, owner.attrs[e.attr], depth + 1)
+                if isinstance(ci, tuple) and ci[0] == "module" and ci[1] is not None:
+                    return self._fold_value(ci[1], None, ast.Name(id=e.attr, ctx=ast.Load()), depth + 1)
+            return NOCONST
+        if isinstance(e, ast.Call) and not e.keywords and not any(isinstance(a, ast.Starred) for a in e.args):
+            if from_lib(e.func, "struct", "calcsize") and len(e.args) == 1:
+                fmt = self._fold_value(m, cls, e.args[0], depth + 1)
+                try:
+                    import struct
+                    return struct.calcsize(fmt) if isinstance(fmt, (str, bytes)) else NOCONST
+                except Exception:  # noqa: BLE001
+                    return NOCONST
+            name = e.func.id if isinstance(e.func, ast.Name) else None
+            if name is None or not builtin(name):
+                return NOCONST
+            args = [self._fold_value(m, cls, a, depth + 1) for a in e.args]
+            if any(a is NOCONST for a in args):
+                return NOCONST
+            try:
+                if name == "len" and len(args) == 1 and isinstance(args[0], (bytes, str, tuple)):
+                    return len(args[0])
+                if name == "range" and 1 <= len(args) <= 3 and all(isinstance(a, int) and not isinstance(a, bool) for a in args) \
+                        and len(range(*args)) <= 256:
+                    return tuple(range(*args))
+                if name in ("tuple", "list", "set", "frozenset") and len(args) == 1 and isinstance(args[0], tuple):
+                    if name in ("set", "frozenset"):
+                        out: list = []
+                        for x in args[0]:
+                            if x not in out:
+                                out.append(x)
+                        return tuple(out)
+                    return args[0]
+                if name == "sorted" and len(args) == 1 and isinstance(args[0], tuple):
+                    return tuple(sorted(args[0]))
+                if name in ("min", "max") and args and all(isinstance(a, int) for a in (args[0] if len(args) == 1 and isinstance(args[0], tuple) else args)):
+                    return {"min": min, "max": max}[name](args[0] if len(args) == 1 else args)
+                if name == "sum" and len(args) == 1 and isinstance(args[0], tuple) and all(isinstance(a, int) for a in args[0]):
+                    return sum(args[0])
+                if name == "abs" and len(args) == 1 and isinstance(args[0], int):
+                    return abs(args[0])
+                if name == "ord" and len(args) == 1 and isinstance(args[0], (str, bytes)) and len(args[0]) == 1:
+                    return ord(args[0])
+                if name in ("int", "bool") and len(args) == 1 and isinstance(args[0], int):
+                    return {"int": int, "bool": bool}[name](args[0])
+                if name == "bytes" and len(args) == 1 and isinstance(args[0], tuple) and all(isinstance(a, int) and 0 <= a < 256 for a in args[0]):
+                    return bytes(args[0])
+            except Exception:  # noqa: BLE001
+                return NOCONST
+        return NOCONST
 
     def _class_attr_value(self, m, cls, e: ast.Attribute) -> ast.AST | None:
         """`Class.NAME` / `self.NAME` / `cls.NAME` where NAME is a class-level table / Struct object that is never assigned elsewhere"""
@@ -1619,6 +2096,8 @@ class _Sym:
         body = [s for s in h.node.body if not (isinstance(s, ast.Expr) and isinstance(s.value, ast.Constant))]
         if len(body) != 1 or not isinstance(body[0], ast.Return) or body[0].value is None or h.is_async:
             return None
+        if self._body_marker(call, st) is None and self._wrapper(h) is not None:
+            return None                     # (entered through the wrapper of its new decorator: walked, not substituted)
         env = self._bind(fr, h, call, st)
         if env is None:
             return None
@@ -1892,7 +2371,12 @@ class _Sym:
                 self._bind_target(fr, t, val, st2, u)
         elif isinstance(a, ast.AugAssign):
             if isinstance(a.target, ast.Name):
-                st2.env[a.target.id] = self._opaque(fr, a.target.id, u)
+                cur, step = st.env.get(a.target.id), self.C(fr, a.value, st)
+                if _is_int_const(cur) and _is_int_const(step) and type(a.op) in _BINOPS:
+                    new = _Canon2(self.hop_address, self).visit(ast.BinOp(left=clone(cur), op=a.op, right=step))
+                    st2.env[a.target.id] = new if _is_int_const(new) else self._opaque(fr, a.target.id, u)
+                else:
+                    st2.env[a.target.id] = self._opaque(fr, a.target.id, u)
             else:
                 self._kill(st2, norm(self.C(fr, a.target, st)))
         elif isinstance(a, ast.Delete):
@@ -2064,6 +2548,45 @@ class _Sym:
         return False
 
     # ---------------------------------------------------------------- generator helpers
+    @staticmethod
+    def _straight_gen(g: FuncInfo) -> list | None:
+        """the yield / yield-from expressions of a generator whose body is nothing but a straight line of them"""
+        body = [x for x in g.node.body if not (isinstance(x, ast.Expr) and isinstance(x.value, ast.Constant))]
+        if not body or g.is_async or not all(isinstance(x, ast.Expr) and isinstance(x.value, (ast.Yield, ast.YieldFrom)) and x.value.value is not None
+                                             for x in body):
+            return None
+        return [x.value for x in body]
+
+    def _gen_items(self, fr: _Frame, call: ast.Call, st: _St, depth: int) -> ast.AST | None:
+        """a call of a new straight-line generator (`yield a; yield from (b, c)`) denotes the sequence of its items"""
+        if not self.new_funcs or depth >= 3:
+            return None
+        hs = self._callees(fr, call, st, gen=True)
+        ys = self._straight_gen(hs[0]) if len(hs) == 1 else None
+        if ys is None:
+            return None
+        env = self._bind(fr, hs[0], call, st)
+        if env is None:
+            return None
+        st2 = _St()
+        st2.env = env
+        hfr = _Frame(hs[0], None, fr, call)
+        items: list = []
+        for y in ys:
+            v = self.C(hfr, y.value, st2, depth + 1)
+            if isinstance(y, ast.Yield):
+                items.append(v)
+            else:
+                sub = _literal_items(v)
+                if sub is None:
+                    return None
+                items.extend(sub)
+        if not all(self._pure(x) for x in items):
+            return None
+        self.followed.add(self._oid(call))
+        self.helpers.add(hs[0])
+        return ast.Tuple(elts=items, ctx=ast.Load())
+
     def _gen_start(self, fr: _Frame, call: ast.AST, st: _St) -> tuple | None:
         """(frame, entry node, environment, used edges) of the new generator helper that `call` creates, or None"""
         call = strip_cast(call)
@@ -2072,6 +2595,8 @@ class _Sym:
         hs = self._callees(fr, call, st, gen=True)
         if not hs:
             return None
+        if len(hs) == 1 and any(isinstance(y, ast.YieldFrom) for y in (self._straight_gen(hs[0]) or [])):
+            return None                     # (read as the literal sequence of its items by C())
         if len(hs) > 1:
             raise AnalysisError(f"undecided: `{norm(call)[:80]}` may create several different new generators")
         env = self._bind(fr, hs[0], call, st)
@@ -2189,6 +2714,19 @@ class _Sym:
         names = {n.id for n in body if isinstance(n, ast.Name) and isinstance(n.ctx, (ast.Store, ast.Del))}
         if isinstance(s, (ast.For, ast.AsyncFor)):
             names |= {n.id for n in ast.walk(s.target) if isinstance(n, ast.Name)}
+        if isinstance(s, ast.While):
+            # an explicit index (`i = 0; while i < n: ..; i += 1`): a local that currently holds an integer constant and that the body
+            # only steps by constants keeps its value - every pass of the loop head is walked with the index it has on that path
+            # (bounded: after 64 passes the index is unknown like any other local the body assigns)
+            key = (fr.key, u.id)
+            turn = st.iters.get(key, 0)
+            steps = self._index_steps(s)
+            keep = {k for k in names if k in steps and _is_int_const(st.env.get(k))} if turn < 64 else set()
+            if keep:
+                st2.iters[key] = turn + 1
+                names -= keep
+            else:
+                st2.iters.pop(key, None)
         for name in names:
             tok = self._opaque(fr, name, u)
             tok.id += "~"
@@ -2196,6 +2734,28 @@ class _Sym:
         if isinstance(s, (ast.For, ast.AsyncFor)):
             return [(True, st2), (False, st2.copy())]
         return [(None, st2)]
+
+    @staticmethod
+    def _index_steps(loop: ast.While) -> set[str]:
+        """locals that the loop body assigns only as `x += c` / `x -= c` / `x = x + c` / `x = x - c` with an integer constant c"""
+        ok: set[str] = set()
+        bad: set[str] = set()
+        for b in loop.body + loop.orelse:
+            for n in ast.walk(b):
+                if isinstance(n, ast.AugAssign) and isinstance(n.target, ast.Name):
+                    (ok if isinstance(n.op, (ast.Add, ast.Sub)) and _is_int_const(n.value) else bad).add(n.target.id)
+                elif isinstance(n, ast.Assign) and len(n.targets) == 1 and isinstance(n.targets[0], ast.Name):
+                    v = n.value
+                    good = isinstance(v, ast.BinOp) and isinstance(v.op, (ast.Add, ast.Sub)) and isinstance(v.left, ast.Name) \
+                        and v.left.id == n.targets[0].id and _is_int_const(v.right)
+                    (ok if good else bad).add(n.targets[0].id)
+                elif isinstance(n, ast.Name) and isinstance(n.ctx, (ast.Store, ast.Del)):
+                    p = parent(n)
+                    if not (isinstance(p, (ast.AugAssign, ast.Assign)) and (getattr(p, "target", None) is n or n in getattr(p, "targets", []))):
+                        bad.add(n.id)
+                elif isinstance(n, _NEST) and any(isinstance(x, (ast.Nonlocal, ast.Global)) for x in ast.walk(n)):
+                    return set()
+        return ok - bad
 
     # ---------------------------------------------------------------- sites
     def _sites_in_comprehension(self, fr: _Frame, g: ast.AST, st: _St, u) -> None:
@@ -2265,6 +2825,10 @@ class _Sym:
         (gen: the new GENERATOR functions instead - calling one runs nothing, iterating over the result does)"""
         if fr.depth >= _FOLLOW_DEPTH or not self.new_funcs:
             return []
+        body = self._body_marker(call, st)
+        if body is not None:
+            is_gen = any(isinstance(n, (ast.Yield, ast.YieldFrom)) for n in walk_no_nested(body.node))
+            return [] if is_gen != gen or any(fr2.fi == body for fr2 in fr.chain()) else [body]
         f = strip_cast(call.func)
         canonical = True
         if isinstance(f, ast.Name) and f.id in st.env:
@@ -2318,8 +2882,11 @@ class _Sym:
                     raise AnalysisError(f"undecided: call `{norm(call)[:80]}` may reach several new helpers named {name}")
                 cands = tg
             g = cands[0]
-            is_gen = any(isinstance(n, ast.Yield) for n in walk_no_nested(g.node))
-            if any(fr2.fi == g for fr2 in fr.chain()) or any(isinstance(n, ast.YieldFrom) for n in walk_no_nested(g.node)) or is_gen != gen:
+            if g in self._classifier_targets():
+                continue                      # the DataChecker classifiers are atoms of the policy (judged by rule_classifiers), wherever they live
+            has_yf = any(isinstance(n, ast.YieldFrom) for n in walk_no_nested(g.node))
+            is_gen = has_yf or any(isinstance(n, ast.Yield) for n in walk_no_nested(g.node))
+            if any(fr2.fi == g for fr2 in fr.chain()) or (has_yf and self._straight_gen(g) is None) or is_gen != gen:
                 continue
             if g not in out:
                 out.append(g)
@@ -2327,18 +2894,52 @@ class _Sym:
                     refs[(self._oid(call), id(g.node))] = o      # the (canonical) expression that named the callee: _bind takes the receiver from it
         return out
 
+    def _classifier_targets(self) -> set:
+        tg = self.__dict__.get("_classifier_tg")
+        if tg is None:
+            tg = set()
+            for k in _CLASSIFIER_NAMES:
+                try:
+                    g = _classifier_fn(self.repo, k)
+                except AnalysisError:
+                    g = None
+                if g is not None:
+                    tg.add(g)
+            self._classifier_tg = tg
+        return tg
+
     def _bind(self, fr: _Frame, h: FuncInfo, call: ast.Call, st: _St) -> dict | None:
         """environment of helper h for this call: parameter -> canonical argument (None: cannot be bound)"""
         a = h.node.args
-        if a.vararg or a.kwarg or any(isinstance(x, ast.Starred) for x in call.args) or any(k.arg is None for k in call.keywords):
+        via_wrapper = self._body_marker(call, st) is not None
+        if a.vararg or a.kwarg:
             return None
+        args = []
+        for x in call.args:
+            if isinstance(x, ast.Starred):
+                v = self.C(fr, x.value, st)              # f(*args) with args a known tuple passes its items
+                if not isinstance(v, (ast.Tuple, ast.List)) or any(isinstance(e, ast.Starred) for e in v.elts):
+                    return None
+                args.extend(v.elts)
+            else:
+                args.append(self.C(fr, x, st))
+        kwvals: list[tuple[str, ast.AST]] = []
+        for k in call.keywords:
+            if k.arg is None:
+                v = self.C(fr, k.value, st)              # f(**kwargs) with kwargs a known (here: empty) dict display
+                if not isinstance(v, ast.Dict) or any(q is None or not isinstance(const_value(q), str) for q in v.keys):
+                    return None
+                kwvals.extend((const_value(q), x) for q, x in zip(v.keys, v.values))
+            else:
+                kwvals.append((k.arg, self.C(fr, k.value, st)))
         pos = [p.arg for p in a.posonlyargs + a.args]
-        args = [self.C(fr, x, st) for x in call.args]
         nested = enclosing_function(h.node) is not None
-        is_method = h.cls is not None and not nested and "staticmethod" not in h.decorator_names()
+        is_method = h.cls is not None and not nested and "staticmethod" not in h.decorator_names() and not via_wrapper
         f = strip_cast(call.func)
         ref = self.__dict__.get("_callee_refs", {}).get((self._oid(call), id(h.node)))
-        if ref is not None:
+        if via_wrapper:
+            recv = None
+        elif ref is not None:
             recv = clone(ref.value) if isinstance(ref, ast.Attribute) else None      # an entry of a table / a branch of a ternary
         elif isinstance(f, ast.Name) and f.id in st.env:
             f = st.env[f.id]                     # a local that holds the callable (already canonical)
@@ -2355,10 +2956,10 @@ class _Sym:
         if len(args) > len(pos):
             return None
         bound: dict[str, ast.AST] = dict(zip(pos, args))
-        for k in call.keywords:
-            if k.arg in bound:
+        for kname, kval in kwvals:
+            if kname in bound:
                 return None
-            bound[k.arg] = self.C(fr, k.value, st)
+            bound[kname] = kval
         hfr, hst = _Frame(h, None, fr, call), _St()
         for p, d in zip(pos[len(pos) - len(a.defaults):], a.defaults):
             if p not in bound:
@@ -2375,12 +2976,22 @@ class _Sym:
     def _call(self, fr: _Frame, call: ast.Call, st: _St) -> list:
         outs: list = []
         for h in self._callees(fr, call, st):
-            env = self._bind(fr, h, call, st)
+            wrapped = self._body_marker(call, st) is None and self._wrapper(h) is not None
+            env = self._bind(fr, h, call, st) if not wrapped else {}
             if env is None:
                 raise AnalysisError(f"undecided: cannot bind the arguments of `{norm(call)[:80]}` to new helper {h.qualname}")
             self.followed.add(self._oid(call))
             self.helpers.add(h)
-            fr2 = _Frame(h, self.ctx.cfg(h), fr, call)
+            target = h
+            w = self._wrapper(h) if self._body_marker(call, st) is None else None
+            if w is not None:
+                # a new helper that carries a new decorator: the call enters the decorator's wrapper (which calls the helper's body)
+                env = self._wrapper_call_env(fr, h, w, call, st)
+                if env is None:
+                    raise AnalysisError(f"undecided: cannot bind the arguments of `{norm(call)[:80]}` to the wrapper of new decorator {w[3].qualname}")
+                target = w[0]
+                self.helpers.add(target)
+            fr2 = _Frame(target, self.ctx.cfg(target), fr, call)
             st2 = st.copy()
             st2.env, st2.ret = env, None
             for kind, ret, st3 in self._paths(fr2, st2):
@@ -2486,7 +3097,7 @@ def _sorted_eq(a: str, b: str) -> tuple:
 
 
 def rule_policy_table(ctx: Ctx) -> None:
-    fi = ctx.repo.method("TunnelExitSocket", "is_allowed", ES)
+    fi = _method(ctx.repo, "TunnelExitSocket", "is_allowed", ES)
     data = fi.params()[1]
     ctx.check(not local_defs(fi, data), "policy-table", fi, fi.node, "is_allowed judges the data it was given",
               "is_allowed rebinds its data parameter before classifying it")
@@ -2539,6 +3150,49 @@ def rule_policy_table(ctx: Ctx) -> None:
 
 NULL_ADDRESS = ("0.0.0.0", 0)
 ANON = "ipv8/messaging/anonymization/"
+
+
+def _private_base_of(repo, b, c) -> bool:
+    """b is a class the reviewed tree does not have (a mixin / base the methods of c were moved to) and everything that inherits
+    from it is c or a subclass of c"""
+    if b is c:
+        return True
+    table = _reviewed_functions()
+    rel = b.module.relpath
+    new = _is_new_file(repo, rel) or (rel in table and not any(q == b.name or q.startswith(b.name + ".") for q in table[rel]) and
+                                       rel.startswith("ipv8/messaging/anonymization/"))
+    return bool(new) and b in c.mro() and all(x is c or c in x.mro() for x in b.all_subclasses())
+
+
+def _method(repo, clsname: str, meth: str, rel: str) -> FuncInfo:
+    """the method `clsname.meth` as the class runs it: defined in the class itself, or inherited from a new private base of it"""
+    c = repo.cls(clsname, rel)
+    f = c.methods.get(meth)
+    if f is None:
+        for b in c.mro()[1:]:
+            if meth in b.methods:
+                f = b.methods[meth] if _private_base_of(repo, b, c) else None
+                break
+    if f is None:
+        raise AnalysisError(f"anchor-lost: method {clsname}.{meth}")
+    return f
+
+
+def _in_class(repo, fi: FuncInfo | None, clsname: str, rel: str) -> bool:
+    """fi is (nested in) a method of the class or of a new private base of it"""
+    if fi is None or fi.cls is None:
+        return False
+    c = repo.try_cls(clsname, rel)
+    return c is not None and (fi.cls is c or _private_base_of(repo, fi.cls, c))
+
+
+def _is_method(repo, fi: FuncInfo | None, clsname: str, meth: str, rel: str) -> bool:
+    if fi is None:
+        return False
+    try:
+        return fi == _method(repo, clsname, meth, rel)
+    except AnalysisError:
+        return False
 
 
 def _sim(ctx: Ctx, key: str, build) -> _Sym:
@@ -2601,7 +3255,7 @@ def _site_tag(call: ast.AST) -> str | None:
 
 
 def _sendto_sim(ctx: Ctx) -> _Sym:
-    fi = ctx.repo.method("TunnelExitSocket", "sendto", ES)
+    fi = _method(ctx.repo, "TunnelExitSocket", "sendto", ES)
 
     def on_site(sym: _Sym, fr: _Frame, c: ast.Call, tag: str, st: _St) -> dict:
         if tag != "emit":
@@ -2614,7 +3268,7 @@ def _sendto_sim(ctx: Ctx) -> _Sym:
 
 
 def _datagram_sim(ctx: Ctx) -> _Sym:
-    fi = ctx.repo.method("TunnelExitSocket", "datagram_received", ES)
+    fi = _method(ctx.repo, "TunnelExitSocket", "datagram_received", ES)
 
     def on_site(sym: _Sym, fr: _Frame, c: ast.Call, tag: str, st: _St) -> dict:
         if tag != "tunnel":
@@ -2626,7 +3280,7 @@ def _datagram_sim(ctx: Ctx) -> _Sym:
 
 def _tunnel_data_sim(ctx: Ctx) -> _Sym | None:
     """TunnelExitSocket.tunnel_data walked for its hand-over to the overlay (send_data): is the exit policy established there?"""
-    fi = ctx.repo.method("TunnelExitSocket", "tunnel_data", ES)
+    fi = _method(ctx.repo, "TunnelExitSocket", "tunnel_data", ES)
     if fi is None or len(fi.params()) < 3:
         return None
 
@@ -2644,7 +3298,7 @@ def _forwarder_sims(ctx: Ctx) -> list[_Sym]:
     """datagram_received_ipv4 / _ipv6 walked for their forward to datagram_received"""
     out = []
     for name in ("datagram_received_ipv4", "datagram_received_ipv6"):
-        fi = ctx.repo.method("TunnelExitSocket", name, ES)
+        fi = _method(ctx.repo, "TunnelExitSocket", name, ES)
 
         def tag(n: ast.AST) -> str | None:
             return "forward" if isinstance(n, ast.Call) and chain(n.func) == "self.datagram_received" else None
@@ -2658,20 +3312,26 @@ def _forwarder_sims(ctx: Ctx) -> list[_Sym]:
 
 
 def _on_data_sim(ctx: Ctx) -> _Sym:
-    fi = ctx.repo.method("TunnelCommunity", "on_data", TC)
+    fi = _method(ctx.repo, "TunnelCommunity", "on_data", TC)
 
     def on_site(sym: _Sym, fr: _Frame, c: ast.Call, tag: str, st: _St) -> dict:
         if tag != "exit_data":
             return {}
         d = arg(c, 2, "destination")
         xd = sym.C(fr, d, st) if d is not None else None
-        return {"null": _not_null_on(st, xd), "payload": xd is not None and (chain(xd) or "").endswith(".dest_address")}
+        # the address exit_data compares with the previous hop is the one the cell really came from: on_data's own source-address
+        # parameter (as received from the endpoint), not a field of the cell's payload or anything computed from one
+        exp = _method(ctx.repo, "TunnelCommunity", "exit_data", TC).params()
+        s_ = arg(c, 1, exp[2]) if len(exp) > 2 else None
+        xs_ = sym.C(fr, s_, st) if s_ is not None else None
+        return {"null": _not_null_on(st, xd), "payload": xd is not None and (chain(xd) or "").endswith(".dest_address"),
+                "source": isinstance(xs_, ast.Name) and xs_.id == fi.params()[1]}
     return _sim(ctx, "on_data", lambda: _Sym(ctx, fi, _site_tag, on_site))
 
 
 def _enable_idempotent(ctx: Ctx) -> bool:
     """TunnelExitSocket.enable() does nothing when the socket is already enabled"""
-    en = ctx.repo.method("TunnelExitSocket", "enable", ES)
+    en = _method(ctx.repo, "TunnelExitSocket", "enable", ES)
     cfg = ctx.cfg(en)
     for n in cfg.nodes:
         a = n.ast
@@ -2699,7 +3359,7 @@ def _says_enabled(f: Fact) -> bool:
 
 
 def _exit_data_sim(ctx: Ctx) -> _Sym:
-    ex = ctx.repo.method("TunnelCommunity", "exit_data", TC)
+    ex = _method(ctx.repo, "TunnelCommunity", "exit_data", TC)
     params = ex.params()
     cid, sock = params[1], params[2]
     reg = f"self.exit_sockets[{cid}]"          # the socket registered under the cell's circuit id
@@ -2730,8 +3390,32 @@ def _exit_data_sim(ctx: Ctx) -> _Sym:
 def _via_helper(ctx: Ctx, sym: _Sym, fi: FuncInfo | None, c: ast.Call) -> bool:
     """c sits in a NEW helper that was walked from sym's function with the caller's facts, the call was judged there, and the
     helper cannot be entered any other way (every call of it in the repository was followed by that walk)"""
-    if fi is None or fi not in sym.helpers or id(c) not in sym.results:
+    if fi is None or id(c) not in sym.results:
         return False
+    return _via_walk(ctx, sym, fi)
+
+
+def _via_walk(ctx: Ctx, sym: _Sym, fi: FuncInfo | None) -> bool:
+    """fi is a NEW helper that was walked from sym's function and cannot be entered any other way"""
+    if fi is None or fi not in sym.helpers:
+        return False
+    deco = next((w[3] for w in sym.__dict__.get("_wrappers", {}).values() if w is not None and w[0] == fi), None)
+    if deco is not None:
+        # fi is the wrapper a new decorator returns: it runs exactly when a function carrying that decorator is called - each of those
+        # must be the walked function itself or a new helper that is only entered by the walk
+        for m in ctx.repo.modules.values():
+            for n in ast.walk(m.tree):
+                if not ((isinstance(n, ast.Name) and n.id == deco.name and isinstance(n.ctx, ast.Load)) or (isinstance(n, ast.Attribute) and n.attr == deco.name)):
+                    continue
+                top, q = n, parent(n)
+                while q is not None and isinstance(q, ast.expr):
+                    top, q = q, parent(q)
+                if not (isinstance(q, (ast.FunctionDef, ast.AsyncFunctionDef)) and any(top is d for d in q.decorator_list)):
+                    return False
+                g = getattr(q, "_info", None)
+                if g is None or not (g == sym.fi or (g != fi and _via_walk(ctx, sym, g))):
+                    return False
+        return True
     if not all(id(k) in sym.followed for _, _, k in ctx.repo.callers_of_name(fi.name)):
         return False
     # and it is not handed around as a value (callback, table entry outside a followed call)
@@ -2791,7 +3475,7 @@ def _unwalked(sym: _Sym, fi: FuncInfo, tag: str) -> None:
 
 def rule_gates(ctx: Ctx) -> None:
     repo = ctx.repo
-    sendto = repo.method("TunnelExitSocket", "sendto", ES)
+    sendto = _method(repo, "TunnelExitSocket", "sendto", ES)
     sym = _sendto_sim(ctx)
     _unwalked(sym, sendto, "emit")
     emit = ctx.anchor(sym.sites("emit"), "transport.sendto call reached from TunnelExitSocket.sendto")
@@ -2808,7 +3492,7 @@ def rule_gates(ctx: Ctx) -> None:
     for c in calls(sendto, "self.queue.append"):
         ctx.check(True, "gate-out", sendto, c, "queued data is replayed through self.sendto (re-checked)")
     # nested resolution callback re-enters self.sendto
-    for sub in [f for f in sendto.module.all_functions if f.qualname.startswith("TunnelExitSocket.sendto.")]:
+    for sub in [f for f in sendto.module.all_functions if f.qualname.startswith(sendto.qualname + ".")]:
         for c in calls(sub):
             if call_name(c) == "sendto" and id(c) not in sym.results:
                 ctx.check(chain(c.func) == "self.sendto", "gate-out", sub, c, "resolution callback re-enters self.sendto",
@@ -2825,17 +3509,17 @@ def rule_gates(ctx: Ctx) -> None:
             n += 1
             ch = chain(c.func) or ""
             if ch == "self.sendto":
-                ok = fi.qualname.startswith("TunnelExitSocket.")
+                ok = _in_class(repo, fi, "TunnelExitSocket", ES)
                 why = "self.sendto used outside TunnelExitSocket"
             elif isinstance(c.func, ast.Attribute) and id(c) not in sym.results and id(c) not in xsym.results and _own_socket(ctx, fi, c.func.value):
                 # a callback object / function the socket made for itself re-enters the socket's own sendto (gated like any other call)
                 ok = True
                 why = ""
             elif "exit_sockets" in ch or _is_exit_socket_alias(fi, c) or id(c) in xsym.results:
-                ok = fi.qualname == "TunnelCommunity.exit_data" or _via_helper(ctx, xsym, fi, c)
+                ok = _is_method(repo, fi, "TunnelCommunity", "exit_data", TC) or _via_helper(ctx, xsym, fi, c)
                 why = "exit_socket.sendto called outside TunnelCommunity.exit_data (previous-hop / null-destination checks bypassed)"
             else:
-                ok = fi.qualname == "TunnelExitSocket.sendto" or _via_helper(ctx, sym, fi, c)
+                ok = fi == sendto or _via_helper(ctx, sym, fi, c)
                 why = "a transport's sendto is called outside TunnelExitSocket.sendto (exit policy bypassed)"
             ctx.check(ok, "gate-out.who", fi, c, f"sendto caller {fi.qualname}: {ch}", why)
     for s_ in (sym, xsym):
@@ -2848,14 +3532,14 @@ def rule_gates(ctx: Ctx) -> None:
     # (a callback object the socket built around its own `self` - the class form of a nested closure - counts as the socket itself;
     #  a sendto on the transport from there is still reported by the caller rule above)
     for m, fi, a in repo.attribute_uses("transport_ipv4"):
-        ctx.check(fi is not None and (fi.qualname.startswith("TunnelExitSocket.") or _own_socket(ctx, fi, a.value)), "gate-out.who", fi or m.relpath, a,
+        ctx.check(fi is not None and (_in_class(repo, fi, "TunnelExitSocket", ES) or _own_socket(ctx, fi, a.value) or _via_walk(ctx, sym, fi)), "gate-out.who", fi or m.relpath, a,
                   "transport_ipv4 used only inside TunnelExitSocket", "exit transport accessed from outside TunnelExitSocket")
     for m, fi, a in repo.attribute_uses("transport_ipv6"):
-        ctx.check(fi is not None and (fi.qualname.startswith("TunnelExitSocket.") or _own_socket(ctx, fi, a.value)), "gate-out.who", fi or m.relpath, a,
+        ctx.check(fi is not None and (_in_class(repo, fi, "TunnelExitSocket", ES) or _own_socket(ctx, fi, a.value) or _via_walk(ctx, sym, fi)), "gate-out.who", fi or m.relpath, a,
                   "transport_ipv6 used only inside TunnelExitSocket", "exit transport accessed from outside TunnelExitSocket")
 
     # ---- inbound
-    dr = repo.method("TunnelExitSocket", "datagram_received", ES)
+    dr = _method(repo, "TunnelExitSocket", "datagram_received", ES)
     dsym = _datagram_sim(ctx)
     _unwalked(dsym, dr, "tunnel")
     td = ctx.anchor(dsym.sites("tunnel"), "tunnel_data call reached from datagram_received")
@@ -2865,10 +3549,10 @@ def rule_gates(ctx: Ctx) -> None:
     in_callee = tsym is not None and bool(tsym.sites("send_data")) and all(tsym.verdict(c2, "gate") for _, c2 in tsym.sites("send_data"))
     fsyms = _forwarder_sims(ctx)
     in_callers = not local_defs(dr, dr.params()[1]) and all(f.sites("forward") and all(f.verdict(c2, "gate") for _, c2 in f.sites("forward")) for f in fsyms) \
-        and all(fi2 is not None and (fi2.qualname in ("TunnelExitSocket.datagram_received_ipv4", "TunnelExitSocket.datagram_received_ipv6")
+        and all(fi2 is not None and (any(_is_method(repo, fi2, "TunnelExitSocket", k, ES) for k in ("datagram_received_ipv4", "datagram_received_ipv6"))
                                      or any(fi2 in f.helpers for f in fsyms))
                 for m2, fi2, c2 in repo.callers_of_name("datagram_received") if chain(c2.func) == "self.datagram_received" and m2.relpath == ES
-                and fi2 is not None and fi2.cls is not None and fi2.cls.name == "TunnelExitSocket")
+                and _in_class(repo, fi2, "TunnelExitSocket", ES))
     for fr, c in td:
         d = arg(c, 1, "data")
         same = d is not None and _param_root(fr.fi, d) == dr.params()[1] if fr.fi == dr else False
@@ -2876,15 +3560,15 @@ def rule_gates(ctx: Ctx) -> None:
         ctx.check(dsym.verdict(c, "gate") or moved, "gate-in", fr.fi, c, "tunnel_data(source, data) only on paths with a truthy is_allowed(data) on the same data",
                   "data from the outside can enter the tunnel without passing the exit policy", dsym.site_facts.get(id(c), []))
     for m, fi, c in repo.callers_of_name("tunnel_data"):
-        if chain(c.func) == "self.tunnel_data" and fi is not None and fi.cls is not None and fi.cls.name == "TunnelExitSocket":
-            ctx.check(fi.qualname == "TunnelExitSocket.datagram_received" or _via_helper(ctx, dsym, fi, c), "gate-in.who", fi, c,
+        if chain(c.func) == "self.tunnel_data" and _in_class(repo, fi, "TunnelExitSocket", ES):
+            ctx.check(fi == dr or _via_helper(ctx, dsym, fi, c), "gate-in.who", fi, c,
                       "TunnelExitSocket.tunnel_data called only from datagram_received",
                       "tunnel_data is called around the inbound policy gate")
         elif fi is not None and (fi.cls is None or not fi.cls.is_subclass_of("TunnelCommunity")):
             ctx.check(_via_helper(ctx, dsym, fi, c), "gate-in.who", fi, c, "no foreign caller of tunnel_data", "tunnel_data called from unexpected place")
     # datagram_received_ipv4/6 forward to datagram_received
     for name in ("datagram_received_ipv4", "datagram_received_ipv6"):
-        f2 = repo.method("TunnelExitSocket", name, ES)
+        f2 = _method(repo, "TunnelExitSocket", name, ES)
         fw = calls(f2, "self.datagram_received")
         # anything that may have an effect besides the forward (logging / len / str / address constructors have none here)
         others = [c for c in calls(f2) if chain(c.func) not in ("self.datagram_received", "UDPv4Address", "UDPv6Address", "self.is_allowed")
@@ -2929,7 +3613,7 @@ def _socket_self_at(ctx: Ctx, site: ast.AST, e: ast.AST | None) -> bool:
             return False
         f = enclosing_function(f)
     info = getattr(f, "_info", None) if f is not None else None
-    return info is not None and info.cls is not None and info.cls.name == "TunnelExitSocket" and info.module.relpath == ES \
+    return info is not None and _in_class(ctx.repo, info, "TunnelExitSocket", ES) \
         and parent(f) is info.cls.node and f.args.args[:1] and f.args.args[0].arg == "self" and "staticmethod" not in info.decorator_names() \
         and "classmethod" not in info.decorator_names() and not local_defs(info, "self")
 
@@ -2983,9 +3667,14 @@ def _own_socket(ctx: Ctx, fi: FuncInfo | None, e: ast.AST) -> bool:
     fi lives in a class (or is a function) the reviewed tree does not have, which is only ever constructed (called, wrapped in
     functools.partial) inside TunnelExitSocket's own methods with that method's `self` in the position e reads.  Calling
     <e>.sendto(..) is then the socket re-entering its own gated sendto, exactly like the nested closure that captured `self`."""
-    if fi is None or fi.module.relpath != ES:
+    if fi is None:
         return False
-    table = _reviewed_functions().get(ES)
+    if _is_new_file(ctx.repo, fi.module.relpath):
+        table = {}                          # (a module the reviewed tree does not have: everything in it is new)
+    elif fi.module.relpath == ES:
+        table = _reviewed_functions().get(ES)
+    else:
+        return False
     if table is None or fi.qualname in table:
         return False
     x = _expand(fi, e)
@@ -3070,14 +3759,14 @@ def _is_exit_socket_alias(fi: FuncInfo, c: ast.Call) -> bool:
 
 def rule_null_and_prev_hop(ctx: Ctx) -> None:
     repo = ctx.repo
-    on_data = repo.method("TunnelCommunity", "on_data", TC)
+    on_data = _method(repo, "TunnelCommunity", "on_data", TC)
     osym = _on_data_sim(ctx)
     _unwalked(osym, on_data, "exit_data")
     ed = ctx.anchor(osym.sites("exit_data"), "exit_data call reached from on_data")
     # the guard sits in front of the call - or at the top of exit_data itself (on every path to its send, about its own
     # destination parameter, which the call below fills with the payload's dest_address)
     xs = _exit_data_sim(ctx)
-    exd = repo.method("TunnelCommunity", "exit_data", TC)
+    exd = _method(repo, "TunnelCommunity", "exit_data", TC)
     in_callee = bool(xs.sites("emit")) and all(xs.verdict(c2, "null") for _, c2 in xs.sites("emit"))
     for fr, c in ed:
         # the destination is the payload's dest_address, and it is not the null address on any path to the call
@@ -3086,11 +3775,17 @@ def rule_null_and_prev_hop(ctx: Ctx) -> None:
         ctx.check((osym.verdict(c, "null") or moved) and osym.verdict(c, "payload"), "null-destination", fr.fi, c,
                   "exit_data only on paths with destination != ('0.0.0.0', 0)",
                   "data addressed to 0.0.0.0:0 can be handed to the exit socket", osym.site_facts.get(id(c), []))
+        ctx.check(osym.verdict(c, "source"), "previous-hop", fr.fi, c,
+                  f"exit_data is given the address the DATA cell was received from ({on_data.params()[1]}) as the sender it compares with the previous hop",
+                  f"exit_data's sender argument is not on_data's own source address `{on_data.params()[1]}` on every path: the previous-hop "
+                  "comparison in exit_data (sender IP == hop IP, the only thing that opens the outside socket) is then made on a value the "
+                  "sender of the cell can choose (e.g. the payload's org_address), so data from any IP can open the exit socket and be emitted",
+                  osym.site_facts.get(id(c), []))
     for m, fi, c in repo.callers_of_name("exit_data"):
-        ctx.check(fi is not None and (fi.qualname == "TunnelCommunity.on_data" or _via_helper(ctx, osym, fi, c)), "null-destination.who",
+        ctx.check(fi is not None and (fi == on_data or _via_helper(ctx, osym, fi, c)), "null-destination.who",
                   fi or m.relpath, c, "exit_data called only from on_data", "exit_data is called around the null-destination check")
 
-    ex = repo.method("TunnelCommunity", "exit_data", TC)
+    ex = _method(repo, "TunnelCommunity", "exit_data", TC)
     cfg = ctx.cfg(ex)
     params = ex.params()
     cid, sock = params[1], params[2]
@@ -3136,9 +3831,23 @@ def rule_null_and_prev_hop(ctx: Ctx) -> None:
     for m, fi, c in repo.callers_of_name("enable"):
         if fi is None or not fi.module.relpath.startswith(ANON):
             continue
-        ctx.check(fi.qualname == "TunnelCommunity.exit_data" or _via_helper(ctx, xsym, fi, c), "previous-hop.who", fi, c,
+        ctx.check(fi == ex or _via_helper(ctx, xsym, fi, c), "previous-hop.who", fi, c,
                   "enable() called only from exit_data", "an exit socket is enabled around the previous-hop check")
-    # `enabled` written only by enable()
+    # `enabled` written only by enable()  (when `enabled` is a read-only property over a state holder - `return self._state.open` -
+    # the attributes on that path are what is written, and the same closed set of writers applies to them)
+    backing, holders = {"enabled"}, set()
+    sock_cls = repo.cls("TunnelExitSocket", ES)
+    getter = next((b.methods["enabled"] for b in sock_cls.mro() if "enabled" in b.methods), None)
+    if getter is not None:
+        body = [x for x in getter.node.body if not (isinstance(x, ast.Expr) and isinstance(x.value, ast.Constant))]
+        path = chain(body[0].value) if len(body) == 1 and isinstance(body[0], ast.Return) and body[0].value is not None else None
+        if "property" not in getter.decorator_names() or path is None or not path.startswith("self.") or "(" in path or "[" in path:
+            raise AnalysisError("undecided: TunnelExitSocket.enabled is computed by a method, not a stored flag or a property view of one")
+        backing |= set(path.split(".")[1:])
+        table = _reviewed_functions()
+        holders = {c.name for c in repo.all_classes() if c.module.relpath.startswith(ANON) and (
+            _is_new_file(repo, c.module.relpath) or (c.module.relpath in table and not any(
+                q.startswith(c.name + ".") for q in table[c.module.relpath])))}
     for m in repo.modules.values():
         if not m.relpath.startswith(ANON):
             continue
@@ -3146,11 +3855,16 @@ def rule_null_and_prev_hop(ctx: Ctx) -> None:
             if isinstance(n, (ast.Assign, ast.AnnAssign, ast.AugAssign)):
                 tgts = n.targets if isinstance(n, ast.Assign) else [n.target]
                 for t in [e for t in tgts for e in (t.elts if isinstance(t, (ast.Tuple, ast.List)) else [t])]:
-                    if isinstance(t, ast.Attribute) and t.attr == "enabled":
+                    if isinstance(t, ast.Attribute) and t.attr in backing:
                         fi = repo.function_of(n)
-                        ok = fi is not None and fi.qualname in ("TunnelExitSocket.enable", "TunnelExitSocket.__init__")
-                        if fi is not None and fi.qualname == "TunnelExitSocket.__init__":
-                            ok = isinstance(n.value, ast.Constant) and n.value.value is False
+                        is_init = _is_method(repo, fi, "TunnelExitSocket", "__init__", ES)
+                        ok = _is_method(repo, fi, "TunnelExitSocket", "enable", ES) or is_init
+                        v = strip_cast(n.value) if getattr(n, "value", None) is not None else None
+                        if is_init:
+                            ok = (isinstance(v, ast.Constant) and v.value is False) or (
+                                t.attr != "enabled" and isinstance(v, ast.Call) and isinstance(v.func, ast.Name) and v.func.id in holders)
+                        elif not ok and fi is not None and fi.cls is not None and fi.cls.name in holders and fi.name == "__init__":
+                            ok = isinstance(v, ast.Constant) and v.value is False        # the state holder starts closed
                         ctx.check(ok, "previous-hop.who", fi or m.relpath, n, "`enabled` set only by enable() (False initially)",
                                   "`enabled` is set outside TunnelExitSocket.enable")
 
@@ -3162,7 +3876,7 @@ def rule_hop_origin(ctx: Ctx) -> None:
     network's peer table, a cache) is shared: its address is rewritten in place when that key is seen from another address,
     and the comparison then no longer concerns the circuit's previous hop."""
     repo = ctx.repo
-    jc = repo.method("TunnelCommunity", "join_circuit", TC)
+    jc = _method(repo, "TunnelCommunity", "join_circuit", TC)
     addr_param = jc.params()[2]
 
     def ctor_tag(n: ast.AST) -> str | None:
@@ -3191,10 +3905,10 @@ def rule_hop_origin(ctx: Ctx) -> None:
                   sym.site_facts.get(id(c), []))
     for m, fi, c in repo.callers_of_name("TunnelExitSocket"):
         if m.relpath.startswith(ANON) and fi is not None:
-            ctx.check(fi.qualname == "TunnelCommunity.join_circuit" or _via_helper(ctx, sym, fi, c), "previous-hop.origin", fi, c,
+            ctx.check(fi == jc or _via_helper(ctx, sym, fi, c), "previous-hop.origin", fi, c,
                       "exit sockets are created only by join_circuit", "an exit socket is created outside join_circuit: its previous hop is not "
                       "tied to the source address of a CREATE cell")
-    oc = repo.method("TunnelCommunity", "on_create", TC)
+    oc = _method(repo, "TunnelCommunity", "on_create", TC)
     src_param = oc.params()[1]
 
     def on_join(sym2: _Sym, fr: _Frame, c: ast.Call, tag: str, st: _St) -> dict:
@@ -3212,7 +3926,7 @@ def rule_hop_origin(ctx: Ctx) -> None:
                   "(hop.address, compared by exit_data before opening the outside socket) is then not the sender of the CREATE")
     for m, fi, c in repo.callers_of_name("join_circuit"):
         if m.relpath.startswith(ANON) and fi is not None:
-            ctx.check(fi.qualname == "TunnelCommunity.on_create" or _via_helper(ctx, osym, fi, c), "previous-hop.origin", fi, c,
+            ctx.check(fi == oc or _via_helper(ctx, osym, fi, c), "previous-hop.origin", fi, c,
                       "join_circuit called only from the CREATE handler", "join_circuit is called from outside on_create")
 
 
@@ -3429,18 +4143,168 @@ class _QSym(_Sym):
         self.summary: list[tuple[tuple, ast.AST]] = []
 
     def run(self) -> "_QSym":
-        fr = _Frame(self.fi, self.ctx.cfg(self.fi))
-        st = _St()
-        for p in self.fi.params():
-            st.env[p] = ast.Name(id=p, ctx=ast.Load())
-        st.env[self.fi.params()[0]] = ast.Name(id="data", ctx=ast.Load())
+        fr, st = self._start(first_as="data")
         self.root = fr
         self.summary = [(st2.trail, ret) for kind, ret, st2 in self._paths(fr, st) if kind == "ret"]
         return self
 
+    # -- EAFP: a read of the argument that raises on short input, inside a try whose handler catches exactly that exception
+    # (IndexError for data[k], struct.error for a fixed-format unpack), IS a length test: the read completes iff len(data) >= what it
+    # needs, and the handler runs iff len(data) is shorter.  The raising outcome is walked into the handler that catches it (handlers in
+    # order, outer try statements and the callers of a walked helper next) with that fact on the trail.
+    @staticmethod
+    def _marker(st: _St, kind: str) -> str | None:
+        return next((k[1] for k in st.facts if k[0] == kind), None)
+
+    @staticmethod
+    def _set_marker(st: _St, kind: str, val: str | None) -> None:
+        for k in [k for k in st.facts if k[0] == kind]:
+            st.facts.pop(k)
+        if val is not None:
+            st.facts[(kind, val, None)] = True
+
+    @staticmethod
+    def _handler_catches(fi: FuncInfo, h: ast.ExceptHandler, exc: str) -> bool:
+        if h.type is None:
+            return True
+        m = fi.module
+        for e in (h.type.elts if isinstance(h.type, ast.Tuple) else [h.type]):
+            c = chain(e)
+            if isinstance(e, ast.Name) and (e.id in m.functions or e.id in m.constants or e.id in m.classes):
+                continue
+            if c in ("Exception", "BaseException") and c not in m.imports:
+                return True
+            if exc == "IndexError" and c in ("IndexError", "LookupError") and c not in m.imports:
+                return True
+            if exc == "struct.error":
+                if isinstance(e, ast.Name) and m.imports.get(e.id) == ("struct", "error"):
+                    return True
+                if isinstance(e, ast.Attribute) and e.attr == "error" and isinstance(e.value, ast.Name) and m.imports.get(e.value.id) == ("struct", None):
+                    return True
+        return False
+
+    def _catching_try(self, fi: FuncInfo, node: ast.AST, exc: str) -> bool:
+        """node lies in the body of a try statement (of its own function) one of whose handlers catches exc"""
+        cur, p = node, parent(node)
+        while p is not None and not isinstance(p, (ast.FunctionDef, ast.AsyncFunctionDef, ast.Lambda, ast.ClassDef)):
+            if isinstance(p, ast.Try) and any(cur is x for x in p.body) and any(self._handler_catches(fi, h, exc) for h in p.handlers):
+                return True
+            cur, p = p, parent(p)
+        return False
+
+    @staticmethod
+    def _raises(n: ast.AST, tag: str) -> str | None:
+        """the exception a read raises on short input (None: it does not raise - int.from_bytes reads a shorter field instead)"""
+        if tag == "index":
+            return "IndexError"
+        if isinstance(n, ast.Call) and ((chain(n.func) or "") == "int.from_bytes" or (isinstance(n.func, ast.Attribute) and n.func.attr == "from_bytes")):
+            return None
+        return "struct.error"
+
+    @staticmethod
+    def _pre_conditions(n: ast.AST) -> list | None:
+        """(condition, outcome) pairs that short-circuit evaluation puts in front of n inside its statement; None: another scope"""
+        cur, p = n, parent(n)
+        pre: list = []
+        while p is not None and isinstance(p, ast.expr):
+            if isinstance(p, ast.BoolOp):
+                idx = next((i for i, v in enumerate(p.values) if v is cur), 0)
+                pre = [*[(v, isinstance(p.op, ast.And)) for v in p.values[:idx]], *pre]
+            elif isinstance(p, ast.IfExp) and cur is not p.test:
+                pre = [(p.test, cur is p.body), *pre]
+            elif isinstance(p, _NEST):
+                return None
+            cur, p = p, parent(p)
+        return pre
+
+    def _risky_reads(self, fr: _Frame, u, st: _St) -> list:
+        out = []
+        for e in _own_exprs(u):
+            for n in _all_exprs(e):
+                tag = self._read_site(n)
+                exc = self._raises(n, tag) if tag else None
+                if exc is None or not self._catching_try(fr.fi, n, exc):
+                    continue
+                pre = self._pre_conditions(n)
+                if pre is None:
+                    continue
+                st2 = st.copy()
+                if not all(self.assume(self.C(fr, v, st2), pol, st2) for v, pol in pre):
+                    continue
+                need = self._need(fr, n, tag, st2)
+                if need is None or self._min_len(st2) >= need:
+                    continue
+                out.append((n, pre, need, exc))
+        out.sort(key=lambda r: (getattr(r[0], "end_lineno", 0) or 0, getattr(r[0], "end_col_offset", 0) or 0))
+        return out
+
     def _eval_node(self, fr: _Frame, u, st: _St) -> list:
-        # reads that could raise are judged by the guarded-reads instances below; the decision table is about completed runs
-        return [(lab, s) for lab, s in super()._eval_node(fr, u, st) if lab != "exc"]
+        if u.kind == "dispatch":
+            exc = self._marker(st, "%exc")
+            if exc is None or self._marker(st, "%catch") not in (None, "0"):
+                return []
+            chosen = next((h for h in u.ast.handlers if self._handler_catches(fr.fi, h, exc)), None)
+            st2 = st.copy()
+            self._set_marker(st2, "%catch", str(id(chosen)) if chosen is not None else "0")
+            return [("exc", st2)]
+        if u.kind == "handler":
+            if self._marker(st, "%catch") != str(id(u.ast)):
+                return []
+            st2 = st.copy()
+            self._set_marker(st2, "%catch", None)
+            self._set_marker(st2, "%exc", None)
+            if u.ast is not None and u.ast.name:
+                st2.env[u.ast.name] = self._opaque(fr, u.ast.name, u)
+            return [(None, st2)]
+        if self._marker(st, "%catch") not in (None, "0"):
+            return []                       # (the edge from the dispatch that leaves the try although a handler caught the exception)
+        # reads that could raise outside such a try are judged by the guarded-reads instances below; the decision table is about
+        # completed runs
+        base = super()._eval_node(fr, u, st)
+        own = [(lab, s) for lab, s in base if lab != "exc"]
+        raised = [(lab, s) for lab, s in base if lab == "exc" and self._marker(s, "%exc") is not None]      # raised inside a walked helper
+        if u.kind not in ("stmt", "cond") or self._marker(st, "%exc") is not None:
+            return own + raised
+        risky = self._risky_reads(fr, u, st)
+        if not risky:
+            return own + raised
+        if any(isinstance(c, ast.Call) and self._walkable(fr, c, st) for e in _own_exprs(u) for c in _all_exprs(e)):
+            raise AnalysisError(f"undecided: `{norm(u.ast)[:80]}` in classifier {self.fi.name} mixes helper calls with reads that may raise into a handler")
+        alive, excs = [st], []
+        for n, pre, need, exc in risky:
+            nxt = []
+            for s in alive:
+                cur, dead = s, False
+                for v, pol in pre:
+                    off = cur.copy()
+                    if self.assume(self.C(fr, v, off), not pol, off):
+                        nxt.append(off)     # a condition in front of the read fails: the read is not evaluated
+                    on = cur.copy()
+                    if not self.assume(self.C(fr, v, on), pol, on):
+                        dead = True
+                        break
+                    cur = on
+                if dead:
+                    continue
+                short = ast.Compare(left=ast.Call(func=ast.Name(id="len", ctx=ast.Load()), args=[ast.Name(id="data", ctx=ast.Load())], keywords=[]),
+                                    ops=[ast.Lt()], comparators=[ast.Constant(value=need)])
+                bad, good = cur.copy(), cur.copy()
+                if self.assume(short, True, bad):
+                    excs.append((bad, exc))
+                if self.assume(clone(short), False, good):
+                    nxt.append(good)
+            alive = nxt
+            if len(alive) + len(excs) > 64:
+                raise AnalysisError(f"undecided: too many raising reads in `{norm(u.ast)[:80]}` of classifier {self.fi.name}")
+        res: list = []
+        for s in alive:
+            res.extend((lab, s2) for lab, s2 in super()._eval_node(fr, u, s) if lab != "exc")
+        for s, exc in excs:
+            s2 = s.copy()
+            self._effects(fr, u, s2, False)
+            self._set_marker(s2, "%exc", exc)
+            res.append(("exc", s2))
+        return res + raised
 
     # -- reads
     @staticmethod
@@ -3536,9 +4400,9 @@ class _QSym(_Sym):
 
 def rule_classifiers(ctx: Ctx) -> None:
     repo = ctx.repo
-    dc = repo.cls("DataChecker", ES)
+    _data_checker(repo)
     # could_be_bt = utp or tracker or dht on the same data
-    bt = dc.methods.get("could_be_bt")
+    bt = _classifier_fn(repo, "could_be_bt")
     ctx.anchor(bt, "DataChecker.could_be_bt")
     data = bt.params()[0]
     ctx.check(not local_defs(bt, data), "classifier-shape", bt, bt.node, "could_be_bt inspects its own argument",
@@ -3550,7 +4414,7 @@ def rule_classifiers(ctx: Ctx) -> None:
     ctx.check(ok, "classifier-shape", bt, bt.node, "could_be_bt = utp(data) or udp_tracker(data) or dht(data)",
               "could_be_bt is no longer exactly the disjunction of the three BitTorrent classifiers on its argument")
     for name, (spec_q, spec) in CLASSIFIER_SPEC.items():
-        fi = dc.methods.get(name)
+        fi = _classifier_fn(repo, name)
         ctx.anchor(fi, f"DataChecker.{name}")
         dname = fi.params()[0]
         ctx.check(not local_defs(fi, dname), "classifier-shape", fi, fi.node, f"{name} inspects its own argument",
@@ -3618,6 +4482,9 @@ def rule_classifiers(ctx: Ctx) -> None:
         for node, need, have in sym.reads.values():
             if protected(node, repo.function_of(node) or fi):
                 continue
+            raises = sym._raises(node, sym._read_site(node) or "")
+            if raises is not None and sym._catching_try(repo.function_of(node) or fi, node, raises):
+                continue                    # the handler for exactly this failure is the length test (walked above)
             silent = (chain(node.func) or "") == "int.from_bytes" if isinstance(node, ast.Call) else False
             ctx.check(have >= need, "classifier-shape", repo.function_of(node) or fi, node,
                       f"{name}: `{norm(node)}` needs {need} bytes, guarded with >= {have}",
@@ -3679,6 +4546,9 @@ WITNESSES = [
     {"name": "ipv8 length guard clause one byte short", "file": ES, "rule": "classifier-shape",
      "old": "return len(data) >= 23 and data[0:1] == b\"\\x00\" and data[1:2] in [b\"\\x01\", b\"\\x02\"]",
      "new": "if 22 > len(data):\n            return False\n        return data[:1] == b\"\\x00\" and data[1:2] in (b\"\\x01\", b\"\\x02\")"},
+    {"name": "previous-hop comparison fed with the payload's origin field (seeded C06-m14)", "file": TC, "rule": "previous-hop",
+     "old": "                self.exit_data(circuit_id, sock_addr, destination, data)",
+     "new": "                self.exit_data(circuit_id, sock_addr if origin == (\"0.0.0.0\", 0) else origin, destination, data)"},
     {"name": "exit socket enabled at join", "file": TC, "rule": "previous-hop.who",
      "old": "        self.exit_sockets[circuit_id] = TunnelExitSocket(circuit_id, Hop(peer, session_keys), self)\n",
      "new": "        self.exit_sockets[circuit_id] = TunnelExitSocket(circuit_id, Hop(peer, session_keys), self)\n        self.exit_sockets[circuit_id].enable()\n"},
